@@ -68,7 +68,7 @@ func runC03(c *Ctx) {
 		return
 	}
 	F := model.FindFields(c.P)
-	c03ValidURL(c, F)
+	c03ValidURL(c, F, "")
 	c03Positions(c, F, &spec)
 	c03Options(c, F, &spec)
 	c03CustomDecisive(c, F)
@@ -167,7 +167,9 @@ func c03CustomDecisive(c *Ctx, F *model.Fields) {
 	R.Role("C03.R7", "library-registered URL checks", nCalls, 1)
 }
 
-func c03ValidURL(c *Ctx, F *model.Fields) {
+// c03ValidURL decides the acceptance rules of validURL (C03.R3/R4) or — when rejectRule names a rule of another
+// property — the converse: that validURL rejects for tabled reasons only.
+func c03ValidURL(c *Ctx, F *model.Fields, rejectRule string) {
 	R := c.R
 	fn := c.P.Func(load.ModPath, "(*Policy).validURL")
 	if fn == nil {
@@ -269,6 +271,10 @@ func c03ValidURL(c *Ctx, F *model.Fields) {
 				}
 			}
 		}
+	}
+	if rejectRule != "" {
+		c03Rejects(c, A, fn, rejectRule, RPU, AR, errNil, schemeEmpty, mapokS, len0pol, strEmpty, ws, dataPfx)
+		return
 	}
 	for _, k := range []string{" ", "\t", "\n"} {
 		R.Check(wsSeen[k], "C03.R4", fmt.Sprintf("ws-test:%q", k), fmt.Sprintf("(*Policy).validURL: strings.Contains(url, %q)", k), c.P.Pos(fn.Pos()), "test present", "the white-space test for this character is missing")
@@ -670,4 +676,59 @@ func c03Options(c *Ctx, F *model.Fields, spec *urlSpec) {
 		}
 		R.Check(ensures(fn), "C03.R6", name, "(*Policy)."+name, c.P.Pos(fn.Pos()), "stores true into requireParseableURLs before every return", "this option is documented to require URL checking but does not switch requireParseableURLs on (URL attributes would then pass unchecked)")
 	}
+}
+
+// c03Rejects: with URL checking on, validURL returns false only for a tabled reason — white space outside a data: URL,
+// a parse error, a scheme (non-empty) that the scheme table / patterns / custom checks do not admit, or a scheme-less
+// URL while relative URLs are off or the re-serialised URL is empty.  Any other rejecting path removes URLs that the
+// policy allows (conforming documents no longer pass unchanged).
+func c03Rejects(c *Ctx, A *pa.Analysis, fn *ssa.Function, rule string, RPU, AR *pa.F, errNil, schemeEmpty, mapokS, len0pol, strEmpty, ws, dataPfx []int) {
+	R := c.R
+	if len(errNil) == 0 || len(schemeEmpty) == 0 {
+		R.Unknown(rule, "validURL-reject:roles", "(*Policy).validURL", c.P.Pos(fn.Pos()), "anchor lost: the parse-error test or the empty-scheme test of validURL was not recognised")
+		return
+	}
+	E := orAtoms(schemeEmpty)
+	reasons := pa.Or(
+		pa.And(orAtoms(ws), pa.Not(orAtoms(dataPfx))),
+		pa.Not(orAtoms(errNil)),
+		pa.And(pa.Not(E), pa.Not(orAtoms(mapokS))),
+		pa.And(pa.Not(E), orAtoms(mapokS), pa.Not(orAtoms(len0pol))),
+		pa.And(E, pa.Or(pa.Not(AR), orAtoms(strEmpty))),
+	)
+	track := map[int]bool{}
+	for _, f := range []*pa.F{RPU, reasons} {
+		f.Atoms(track)
+	}
+	var tl []int
+	for k := range track {
+		tl = append(tl, k)
+	}
+	q, err := A.NewQuery(tl)
+	if err != nil {
+		R.Unknown(rule, "validURL-reject:query", "(*Policy).validURL", "", err.Error())
+		return
+	}
+	q.Run(fn.Blocks[0], nil)
+	n := 0
+	for _, b := range fn.Blocks {
+		ret, ok := b.Instrs[len(b.Instrs)-1].(*ssa.Return)
+		if !ok || len(ret.Results) != 2 {
+			continue
+		}
+		okv := A.Cond(ret.Results[1])
+		if okv == pa.True {
+			continue
+		}
+		st := q.StateAt(ret)
+		if st == nil {
+			continue
+		}
+		n++
+		key := fmt.Sprintf("validURL-reject#%d", n)
+		cons := "(*Policy).validURL: return " + A.Sym.Of(ret.Results[0]) + ", " + A.Str(okv)
+		ok1, cex := q.Holds(st, pa.Implies(pa.And(pa.Not(okv), RPU), reasons))
+		R.Check(ok1, rule, key, cons, c.P.Pos(ret.Pos()), "rejects only for a tabled reason (white space, parse error, scheme not admitted, relative URLs off, empty URL)", "a URL the policy allows can be rejected: this return is reachable with no tabled reason for rejection: ["+cex+"]")
+	}
+	R.Role(rule, "rejecting returns of validURL", n, 1)
 }
